@@ -38,7 +38,12 @@ RULE = (
     "(grid, base, hole) triples, counted once (in the (time) layout). Named restriction 'extra_grid_layouts': in "
     "the quick tier the jittered and integer grids run the (time) and flattened layouts only. Three grids also run "
     "the layout 'time_T' (spectral dimensions stored as (direction, frequency)). Every library result is fitted to "
-    "one entry per member; a size mismatch (e.g. a conversion that drops members) is a violation. History family (units 'history:*'): on two "
+    "one entry per member; a size mismatch (e.g. a conversion that drops members) is a violation. Family 'everyN:*': EVERY uniform grid size N = 8..144 (start cycling over {0,7.5,350,-170} by N % 4) with eleven "
+    "members (impulse in the first / last / middle bin, lobes across the wrap, uniform, a pair on both sides of the "
+    "wrap, zero and NaN holes in the first / last bin): bin widths, e, moments, bounds, integrate_spectral_data and "
+    "the converted variables. Family 'dtype:*': variance density STORED as float32 / float16 / int32 / uint16 "
+    "(even-integer valued members, exactly representable; NaN holes for the float types) on a uniform and a "
+    "non-uniform grid, full oracle. History family (units 'history:*'): on two "
     "grids (thorough: four) x every layout, EVERY sequence of length 1..3 over the operation alphabet {read e, read "
     "a1..b2, read hm0, as_frequency_spectrum} + {multiply(full shape, inplace), multiply(per direction, inplace), "
     "fillna(1.0), spec['variance_density']=..., spec.dataset['variance_density']=..., in-place write into the "
@@ -64,7 +69,7 @@ REQUIRED_CATEGORIES = [
     "parity_compared", "parity_direction_compared", "layout_scalar", "layout_time", "layout_time_lat", "layout_flat",
     "integrate_spectral_data_compared", "numba_quadrature_compared", "depth_nan", "depth_finite",
     "history_executed", "history_read_then_mutate", "history_mutation_steps", "history_fillna_filled_bins",
-    "grid_jittered", "grid_integer_dtype", "layout_time_T",
+    "grid_jittered", "grid_integer_dtype", "layout_time_T", "grid_every_N", "storage_dtype_members",
 ]
 
 F = np.array([0.05, 0.1, 0.2, 0.35])
@@ -96,7 +101,7 @@ def fit(v, shape, check, what):
     return v.reshape(shape)
 
 
-def make_2d(f, d, E, depth=np.inf, flat=False, transposed=False):
+def make_2d(f, d, E, depth=np.inf, flat=False, transposed=False, dtype=None):
     """as mc.common.make_2d, but the direction coordinate keeps its dtype (integer grids) and the spectral
     dimensions can be stored as (direction, frequency)."""
     from ocean_science_utilities.wavespectra.spectrum import create_2d_spectrum
@@ -109,10 +114,18 @@ def make_2d(f, d, E, depth=np.inf, flat=False, transposed=False):
     if transposed:
         E = np.ascontiguousarray(np.swapaxes(E, -1, -2))
         sdims = ("direction", "frequency")
+    if dtype is not None:
+        E = E.astype(dtype)     # storage dtype of the variance density (values are exactly representable)
     s = create_2d_spectrum(np.asarray(f, dtype=float), np.asarray(d), E, sp["time"], sp["latitude"], sp["longitude"],
                            dims=dims + sdims, depth=dep)
     return s.flatten() if flat else s
 MAX_CELLS = 2_000_000   # doubles per batch array
+
+# 'every N' family: every uniform grid size of the quantifier; storage-dtype family
+EVERY_N = tuple(range(8, 145))
+EVERY_N_STARTS = (0.0, 7.5, 350.0, -170.0)        # start of the grid with N bins: EVERY_N_STARTS[N % 4]
+STORAGE_DTYPES = ("float32", "float16", "int32", "uint16")
+DTYPE_GRIDS = ("uni12@7.5", "alt8@350w")
 
 # history family: one object, a sequence of reads and in-place modifications (see run_history)
 HISTORY_GRIDS = {"quick": ["alt8@350w", "uni12@7.5"], "thorough": ["uni36@-170", "widewrap12@0"]}
@@ -250,6 +263,12 @@ def units(tier):
         for layout in layouts:
             cost = n * n if layout != "scalar" else 6 * n * n
             us.append({"name": f"{g['name']}:{layout}", "grid": g["name"], "layout": layout, "cost": cost})
+    for r in range(8):     # every uniform N in 8..144, sharded by N % 8
+        us.append({"name": f"everyN:{r}", "kind": "everyN", "residue": r, "layout": "time", "cost": 900})
+    for gname in DTYPE_GRIDS:
+        for dt in STORAGE_DTYPES:
+            us.append({"name": f"dtype:{dt}:{gname}", "kind": "dtype", "grid": gname, "dtype": dt, "layout": "time",
+                       "cost": 300})
     for gname in HISTORY_GRIDS["quick"] + (HISTORY_GRIDS["thorough"] if tier == "thorough" else []):
         for layout in LAYOUTS:
             # named restriction 'history_length3_quick': the quick tier runs the length-3 histories in the (time)
@@ -422,6 +441,8 @@ class Reporter:
 def run_unit(unit):
     if unit.get("kind") == "history":
         return run_history(unit)
+    if unit.get("kind") in ("everyN", "dtype"):
+        return run_small(unit)
     tier = unit["tier"]
     g = next(x for x in grids(tier) if x["name"] == unit["grid"])
     layout = unit["layout"]
@@ -479,7 +500,8 @@ def run_unit(unit):
     return r
 
 
-def check_chunk(c, rep, g, layout, theta, w_ref, labels, chunk, E, Ein, depin, dep, e_ref, mom_ref, bulk_ref, first):
+def check_chunk(c, rep, g, layout, theta, w_ref, labels, chunk, E, Ein, depin, dep, e_ref, mom_ref, bulk_ref, first,
+                light=False, dtype=None):
     from ocean_science_utilities.wavespectra.operations import (
         integrate_spectral_data,
         numba_directionally_integrate_spectral_data,
@@ -490,7 +512,8 @@ def check_chunk(c, rep, g, layout, theta, w_ref, labels, chunk, E, Ein, depin, d
     n = len(theta)
     nc = len(chunk)
     lead_names = LEAD_NAMES[layout]
-    s2 = make_2d(F, np.array(theta), Ein, depth=depin, flat=(layout == "flat"), transposed=(layout == "time_T"))
+    s2 = make_2d(F, np.array(theta), Ein, depth=depin, flat=(layout == "flat"), transposed=(layout == "time_T"),
+                 dtype=dtype)
     c.evaluations += nc
     idx = np.array(chunk)
     lab = lambda i: labels[chunk[i]]  # noqa: E731
@@ -635,6 +658,8 @@ def check_chunk(c, rep, g, layout, theta, w_ref, labels, chunk, E, Ein, depin, d
         for i in np.nonzero(bad)[0][:3]:
             rep("as_frequency_spectrum " + nm, f"1D {nm}={v[i].tolist()} but the 2D object gives {ref[i].tolist()}",
                 lab(i))
+    if light:
+        return      # 'every N' family: bin widths, e, moments, bounds, integrate_spectral_data, converted variables
     nbands = 2 if layout == "scalar" else len(BANDS)
     o2 = observe(s2, nbands)
     o1 = observe(s1, nbands)
@@ -928,3 +953,88 @@ def one_history(c, rep, g, layout, theta, lead_names, E0, nm, hist, wdir):
         if not np.all(ok):
             fail(last, "final parity mean_direction", msg=f"2D object {a.tolist()} vs as_frequency_spectrum() "
                  f"{b.tolist()}")
+
+
+# ---------------------------------------------------------------------------------------------
+# small-member families: every N in 8..144, storage dtype of the variance density
+# ---------------------------------------------------------------------------------------------
+def small_members(theta, integer, with_nan):
+    """(labels, X): a few densities that put energy in the first / last bin and across the wrap.  integer=True
+    gives even whole numbers (exactly representable in float16/float32/int32/uint16, also after the row weights)."""
+    n = len(theta)
+    labels, rows = [], []
+
+    def lobe(j):
+        d = np.array([max(0.0, math.cos(math.radians(theta[i] - theta[j]))) ** 2 for i in range(n)])
+        return 2.0 * np.round(4.0 * d) if integer else d
+
+    def imp(j, amp):
+        d = np.zeros(n)
+        d[j] = amp
+        return d
+
+    a = 6.0 if integer else 1.0
+    base = [(("imp", 0), imp(0, a)), (("imp", n - 1), imp(n - 1, a)), (("imp", n // 2), imp(n // 2, a)),
+            (("lobe", 0), lobe(0)), (("lobe", n - 1), lobe(n - 1)), (("uni",), np.full(n, 2.0 if integer else 1.0)),
+            (("pair", 0, n - 1), imp(0, 4.0 if integer else 1.0) + imp(n - 1, 2.0 if integer else 0.5))]
+    for lab, d in base:
+        labels.append(lab + ("none",))
+        rows.append(d)
+    holes = [(("lobe", 0), "z", 0), (("uni",), "z", n - 1)]
+    if with_nan:
+        holes += [(("imp", 0), "n", n - 1), (("lobe", 0), "n", 0), (("uni",), "n", n - 1)]
+    bd = dict(base)
+    for lab, kind, p in holes:
+        x = bd[lab].copy()
+        x[p] = 0.0 if kind == "z" else np.nan
+        labels.append(lab + (kind, p))
+        rows.append(x)
+    return labels, np.array(rows)
+
+
+def run_small(unit):
+    tier, layout = unit["tier"], unit["layout"]
+    c = Collector()
+    c.cat("layout_" + layout)
+    if unit["kind"] == "everyN":
+        configs = []
+        for n in EVERY_N:
+            if n % 8 == unit["residue"]:
+                start = EVERY_N_STARTS[n % 4]
+                configs.append(({"name": f"every{n}@{start:g}", "theta": [start + j * 360.0 / n for j in range(n)]}, None))
+    else:
+        configs = [(next(x for x in grids(tier) if x["name"] == unit["grid"]), unit["dtype"])]
+    for g, dt in configs:
+        theta = list(g["theta"])
+        n = len(theta)
+        key = {"grid": g["name"], "layout": layout, "family": unit["kind"]}
+        if dt:
+            key["dtype"] = dt
+        rep = Reporter(c, key)
+        labels, X = small_members(theta, integer=dt is not None, with_nan=(dt is None or dt.startswith("float")))
+        M = X.shape[0]
+        e_ref, mom_ref = ref_cells(theta, X)
+        bulk_ref = [ref_bulk(e_ref, mom_ref, band) for band in BANDS]
+        w_ref = ref_widths(theta)
+        assert np.all(w_ref > 0) and abs(w_ref.sum() - 360.0) < 1e-9
+        chunk = list(range(M))
+        idx = np.array(chunk)
+        E = np.stack([ROW_COEF[i] * X[(idx + ROW_OFF[i]) % M] for i in range(NF)], axis=1)
+        if dt:
+            ok = ~np.isnan(E)
+            assert np.all(E[ok] == np.round(E[ok])) and np.all(E[ok].astype(dt).astype(float) == E[ok]), "not representable"
+            c.cat("storage_dtype_members", M)
+        else:
+            c.cat("grid_every_N")
+        dep = np.array([DEPTHS[m % len(DEPTHS)] for m in chunk])
+        try:
+            check_chunk(c, rep, g, layout, theta, w_ref, labels, chunk, E, E, dep, dep, e_ref, mom_ref, bulk_ref, True,
+                        light=(unit["kind"] == "everyN"), dtype=dt)
+        except ShapeMismatch as exc:
+            rep(exc.check, exc.what, labels[0])
+        except Exception as exc:
+            if traceback.extract_tb(exc.__traceback__)[-1].filename.startswith("/verif/"):
+                raise
+            rep("raises", f"{type(exc).__name__}: {exc}", labels[0], traceback=traceback.format_exc()[-1500:])
+        c.case({"family": unit["kind"], "grid": g["name"], "dtype": dt, "M": M})
+    return c.result()
